@@ -177,3 +177,64 @@ def drainReleasesDbg : List Queued → Nat → List ActiveChord → List Queued 
         | .ok (k, achs, dq) => .ok (qd :: k, achs, dq)
 
 end KVerif.L.Pinned
+
+/-! ## The cool-down branch before fix PENDING-kanv2 (stale scan countdown)
+
+`drain_inputs` as it was up to 0b65add: during the cool-down the queue is forwarded and the function
+returns WITHOUT touching `ticks_until_next_state_change`, so the countdown of the scan that started
+the cool-down survives it. Everything else is the current code (Model/ChordsV2.lean). Used only by
+`chv2_stale_countdown_counterexample` (Props/C09kan.lean). -/
+namespace KVerif.L.PinnedStale
+open KVerif.L
+
+/-- `ChordsV2::drain_inputs` before the repair: the cool-down branch leaves the countdown alone -/
+def drainInputs (s : ChV2) (dq : List Queued) (layer : Nat) : Except Crash (ChV2 × List Queued) :=
+  if s.ticksToIgnore > 0 then
+    .ok ({ s with queue := [], active := applyReleases (realInputs s.queue) s.active }, drainExtend dq s.queue)
+  else KVerif.L.drainInputs s dq layer
+
+/-- `ChordsV2::tick_chv2` over that `drain_inputs` -/
+def tickChv2 (s : ChV2) (layer : Nat) : Except Crash (ChV2 × List Queued) :=
+  let s := { s with queue := s.queue.map fun (q : Queued) => { q with since := min (q.since + 1) U16_MAX },
+                    active := s.active.map fun a => { a with delay := min (a.delay + 1) U16_MAX } }
+  let prevLen := s.active.length
+  match drainInputs s [] layer with
+  | .error c => .error c
+  | .ok (s, dq) =>
+    let dq := if s.active.length != prevLen then drainPush dq ⟨.press (0, 0), 0⟩ else dq
+    let dq := if s.active.any (fun a => a.status == .unreadReleased || a.status == .released) then
+        drainPush dq ⟨.release (0, 0), 0⟩ else dq
+    match clearReleased s.active dq with
+    | .error c => .error c
+    | .ok (achs, dq) => .ok ({ s with active := achs, ticksToIgnore := s.ticksToIgnore - 1 }, dq)
+
+/-- the chords-v2 prologue of `Layout::tick` over that `tick_chv2` -/
+def tickV2Pre (s : LayoutV2) : Except Crash LayoutV2 :=
+  match s.chv2 with
+  | none => .ok s
+  | some ch =>
+    match tickChv2 ch s.lay.currentLayer with
+    | .error c => .error c
+    | .ok (ch, dq) =>
+      let (achs, act) := getActionChv2 ch.active
+      let ch := { ch with active := achs }
+      match handOver s.lay dq with
+      | .error c => .error c
+      | .ok lay =>
+        match act with
+        | some a =>
+          .ok { lay := { lay with actionQueue := (pushBackWrap ACTION_QUEUE_LEN lay.actionQueue a).1,
+                                  oneshot := { lay.oneshot with pauseInputProcessingTicks := lay.oneshot.pauseInputProcessingDelay } },
+                chv2 := some ch }
+        | none => .ok { lay, chv2 := some ch }
+
+/-- `Layout::tick` with chords v2, before the repair -/
+def tickV2 (s : LayoutV2) : Except Crash (LayoutV2 × CustomEv) :=
+  match tickV2Pre s with
+  | .error c => .error c
+  | .ok s =>
+    match KVerif.L.tick s.lay with
+    | .error c => .error c
+    | .ok (l, cu) => .ok ({ s with lay := l }, cu)
+
+end KVerif.L.PinnedStale
